@@ -20,6 +20,7 @@ import (
 	"golang.org/x/telemetry/internal/counter"
 	"golang.org/x/telemetry/internal/verif/vstats"
 	"golang.org/x/telemetry/internal/verif/vstk/disp"
+	"golang.org/x/telemetry/internal/verif/vstk/long"
 	"pgregory.net/rapid"
 )
 
@@ -155,6 +156,31 @@ func c14RealPCs() []uint64 {
 	return out
 }
 
+// c14LongPCs are PCs inside functions whose names have 270 to 281 bytes (one PC per function):
+// sixteen such frames exceed the 4096-byte name limit, so the truncation clause is reachable.
+var c14LongPCs = func() []uint64 {
+	var out []uint64
+	chain := make([]int, long.N)
+	for i := range chain {
+		chain[i] = 16 + i
+	}
+	disp.Run(chain, 0, func() {
+		buf := make([]uintptr, 64)
+		n := runtime.Callers(0, buf)
+		frs := runtime.CallersFrames(buf[:n])
+		for {
+			fr, more := frs.Next()
+			if strings.Contains(fr.Function, "/vstk/long.Function_") {
+				out = append(out, uint64(fr.PC))
+			}
+			if !more {
+				break
+			}
+		}
+	})
+	return out
+}()
+
 func c14GenReport(t *rapid.T, real []uint64) *c14Report {
 	r := &c14Report{parentSent: sentinel()}
 	if rapid.Bool().Draw(t, "relocated") {
@@ -169,6 +195,7 @@ func c14GenReport(t *rapid.T, real []uint64) *c14Report {
 		r.sentinelLines = []string{fmt.Sprintf("sentinel %x", r.parentSent)}
 	}
 	ng := rapid.IntRange(1, 4).Draw(t, "ngoroutines")
+	longNames := len(c14LongPCs) > 0 && rapid.IntRange(0, 3).Draw(t, "longNames") == 0
 	running := rapid.IntRange(0, ng-1).Draw(t, "runningIdx")
 	for i := 0; i < ng; i++ {
 		g := c14Goroutine{id: i + 1, status: rapid.SampledFrom([]string{"select", "chan receive", "force gc (idle)", "IO wait", "sleep", "runnable", "syscall"}).Draw(t, "status")}
@@ -179,6 +206,9 @@ func c14GenReport(t *rapid.T, real []uint64) *c14Report {
 			g.status = "runnable"
 		}
 		nf := rapid.OneOf(rapid.IntRange(0, 6), rapid.IntRange(0, 6), rapid.IntRange(14, 30)).Draw(t, "nframes")
+		if longNames {
+			nf = rapid.IntRange(15, 24).Draw(t, "nframesLong")
+		}
 		for j := 0; j < nf; j++ {
 			f := c14Frame{sym: rapid.SampledFrom(c14Syms).Draw(t, "sym"), hasPC: true, relpc: rapid.IntRange(0, 4).Draw(t, "relpc") != 0}
 			if rapid.IntRange(0, 19).Draw(t, "oddSym") == 0 {
@@ -197,6 +227,9 @@ func c14GenReport(t *rapid.T, real []uint64) *c14Report {
 				f.pc = rapid.Uint64().Draw(t, "anyPC")
 			default:
 				f.pc = real[rapid.IntRange(0, len(real)-1).Draw(t, "realPC")] - sentinel() + r.parentSent
+			}
+			if longNames && f.hasPC && rapid.IntRange(0, 15).Draw(t, "longPC") != 0 {
+				f.pc = c14LongPCs[rapid.IntRange(0, len(c14LongPCs)-1).Draw(t, "whichLong")] - sentinel() + r.parentSent
 			}
 			g.frames = append(g.frames, f)
 		}
@@ -334,7 +367,8 @@ func TestVerifC14Structured(t *testing.T) {
 			}
 		}
 		differ := text1 != text2
-		vstats.Case(text1, verdict == "name" && differ, "verdict:"+verdict, fmt.Sprintf("pcs:%d", min(len(pcs), 16)), fmt.Sprintf("oddSymbol:%v", r.odd))
+		vstats.Case(text1, verdict == "name" && differ, "verdict:"+verdict, fmt.Sprintf("pcs:%d", min(len(pcs), 16)), fmt.Sprintf("oddSymbol:%v", r.odd),
+			fmt.Sprintf("truncatedName:%v", strings.HasSuffix(n1, "\ntruncated\n")), fmt.Sprintf("nameWithin12OfLimit:%v", len(n1) > 4096-12), fmt.Sprintf("longPCsAvailable:%d", len(c14LongPCs)))
 	})
 }
 
